@@ -594,6 +594,30 @@ macro_rules! deserialize_number {
             visitor.$visit(tri!(self.n.parse().map_err(|_| invalid_number())))
         }
     };
+
+    ($deserialize:ident => $visit:ident, finite) => {
+        #[cfg(not(feature = "arbitrary_precision"))]
+        fn $deserialize<V>(self, visitor: V) -> Result<V::Value, Error>
+        where
+            V: Visitor<'de>,
+        {
+            self.deserialize_any(visitor)
+        }
+
+        #[cfg(feature = "arbitrary_precision")]
+        fn $deserialize<V>(self, visitor: V) -> Result<V::Value, Error>
+        where
+            V: de::Visitor<'de>,
+        {
+            let float = tri!(self.n.parse().map_err(|_| invalid_number()));
+            // Like the text deserializer, never produce an infinite float.
+            if f64::from(float).is_finite() {
+                visitor.$visit(float)
+            } else {
+                Err(Error::syntax(ErrorCode::NumberOutOfRange, 0, 0))
+            }
+        }
+    };
 }
 
 impl<'de> Deserializer<'de> for Number {
@@ -611,8 +635,8 @@ impl<'de> Deserializer<'de> for Number {
     deserialize_number!(deserialize_u32 => visit_u32);
     deserialize_number!(deserialize_u64 => visit_u64);
     deserialize_number!(deserialize_u128 => visit_u128);
-    deserialize_number!(deserialize_f32 => visit_f32);
-    deserialize_number!(deserialize_f64 => visit_f64);
+    deserialize_number!(deserialize_f32 => visit_f32, finite);
+    deserialize_number!(deserialize_f64 => visit_f64, finite);
 
     forward_to_deserialize_any! {
         bool char str string bytes byte_buf option unit unit_struct
@@ -636,8 +660,8 @@ impl<'de> Deserializer<'de> for &Number {
     deserialize_number!(deserialize_u32 => visit_u32);
     deserialize_number!(deserialize_u64 => visit_u64);
     deserialize_number!(deserialize_u128 => visit_u128);
-    deserialize_number!(deserialize_f32 => visit_f32);
-    deserialize_number!(deserialize_f64 => visit_f64);
+    deserialize_number!(deserialize_f32 => visit_f32, finite);
+    deserialize_number!(deserialize_f64 => visit_f64, finite);
 
     forward_to_deserialize_any! {
         bool char str string bytes byte_buf option unit unit_struct
